@@ -195,6 +195,15 @@ type Case struct {
 	// C16 single-fault cases: byte offset of the offending token / backslash / opener and the class expected.
 	FaultOff   int
 	FaultClass string
+	// File is the name the text is handed over under ("" = the plain name File); C16 source-name streams.
+	File string
+}
+
+func (c Case) file() string {
+	if c.File != "" {
+		return c.File
+	}
+	return File
 }
 
 // Stats collects the distribution of a run.
@@ -236,7 +245,7 @@ type Checker struct {
 }
 
 func replayOf(c Case) map[string]any {
-	return map[string]any{"file_hex": lib.HexS(File), "text_hex": lib.HexS(c.Text), "stream": c.Stream,
+	return map[string]any{"file_hex": lib.HexS(c.file()), "text_hex": lib.HexS(c.Text), "stream": c.Stream,
 		"fault_off": c.FaultOff, "fault_class": c.FaultClass}
 }
 
@@ -353,6 +362,7 @@ func (ck *Checker) Run(cases []Case) {
 	}
 	n := len(cases)
 	goOut := make([]string, n)
+	nameBad := make([]string, n) // C16: what the source-name oracle found for a case with a given name
 	var wg sync.WaitGroup
 	procs := ck.F.Procs
 	for p := 0; p < procs; p++ {
@@ -360,15 +370,17 @@ func (ck *Checker) Run(cases []Case) {
 		go func(p int) {
 			defer wg.Done()
 			for i := p; i < n; i += procs {
-				goOut[i] = GoParse(cases[i].Text, File)
+				goOut[i] = GoParse(cases[i].Text, cases[i].file())
+				if ck.C16 && cases[i].File != "" {
+					nameBad[i] = nameOracle(cases[i].Text, cases[i].File)
+				}
 			}
 		}(p)
 	}
 	wg.Wait()
-	fh := lib.HexS(File)
 	reqs := make([]string, 0, 2*n)
 	for _, c := range cases {
-		th := lib.HexS(c.Text)
+		th, fh := lib.HexS(c.Text), lib.HexS(c.file())
 		reqs = append(reqs, "parse "+fh+" "+th, "spec.parse "+fh+" "+th)
 	}
 	var posReq []string
@@ -466,7 +478,9 @@ func (ck *Checker) Run(cases []Case) {
 		if ck.C16 && v != "violates" {
 			// C16 oracles on the Go output: every printed position lies inside the text; for a
 			// single-fault text the first positioned error stands where the reference reader puts the fault
-			if bad := positionsOutside(g, c.Text); bad != "" {
+			if nameBad[i] != "" {
+				v, why = "violates", "C16: the file part of a reported position is not the name the source was given: "+nameBad[i]
+			} else if bad := positionsOutside(g, c.Text); bad != "" {
 				v, why = "violates", "C16: error position "+bad+" is not a position of the text"
 			} else if bad, want := notAMark(g, markAns[i]); bad != "" {
 				v, why = "violates", "C16: the error "+bad+" does not stand at a token, backslash or opener of its kind; "+
